@@ -56,6 +56,14 @@ class DriverListener:
 
     def on_fread(self, I, st, node, root, pos, size, dst, got):
         fn = self.cur(I)
+        # the reader named in keys is the innermost member function of the class that owns the destination field
+        # (a free helper that wraps fread does not change who reads the field)
+        if dst is not None and dst[0] == 'p' and dst[2] and isinstance(dst[2][-1], str) and '::' in dst[2][-1]:
+            owner = dst[2][-1].rsplit('::', 1)[0]
+            for fr_ in reversed(I.frames):
+                if fr_.fn.get('rec') == owner:
+                    fn = fr_.fn
+                    break
         d = ('loc', dst[1], dst[2]) if dst is not None and dst[0] == 'p' else ('unknown',)
         log(st, 'R', root, pos, size, d, nloc(node), fn['q'] if fn else '?')
         # remember, per destination location, which file range it was read from (provenance for R05.a / R11)
